@@ -46,7 +46,7 @@ func init() {
 			{"server.clientIDMap.current", `^turbotunnel\.go$`, `m\.current`, ""},
 		}})
 	registerAcc(accPkg{dir: "client/lib", label: "client", types: []string{"Peers", "WebRTCPeer", "BrokerChannel", "SnowflakeConn", "WebRTCDialer", "bytesSyncLogger"}, exported: true, assume: map[string][]string{"Peers.Count": {"client.Peers.collectLock"}}, ctors: `^(NewPeers|NewWebRTCPeer|NewWebRTCPeerWithEvents|WebRTCPeer\.connect|WebRTCPeer\.preparePeerConnection|Transport\.SetRendezvousMethod|NewSnowflakeClient|newBrokerChannelFromConfig)$`,
-		exempt: map[string]string{"client.Peers|WebRTCPeer.bytesLogger": "written by Peers.Pop before the popped peer is read; the OnMessage callback reads it only after its pipe write was consumed by that reader, the data path after Pop: ordered by the hand-over channel and the receive pipe, not by a lock"},
+		exempt: map[string]string{"client.Peers|WebRTCPeer.bytesLogger": "two fields under one name (the table is alias-insensitive): WebRTCPeer.bytesLogger is kept under WebRTCPeer.mu since the repair of F19 (setBytesLogger / getBytesLogger; before it, Pop's write raced with the OnMessage callback whenever the receive pipe was closed under the callback); Peers.bytesLogger is written once in Transport.Dial before the connect loop and the data path are started (ordered by the go statements, which Hb does not model). Both are covered by the race-detector workloads only"},
 		aliases: []lockAlias{
 			{`^peers\.go$`, `p\.collectLock`, "client.Peers.collectLock"},
 			{`^(webrtc|peers)\.go$`, `(c|snowflake)\.mu`, "client.WebRTCPeer.mu"},
